@@ -67,6 +67,21 @@ needs.update({
  "C07-j2": ("data setter writes same-shape data into the array it already owns (dtype and datatype stay those of the first data)", "a data assignment of the same length but another kind (complex to real, real to complex, int list to float array)"),
  "C07-j3": ("pmusic/pev write the automatically selected NSIG back to self.NSIG and reuse it forever", "pmusic or pev built without NSIG/threshold, one computation, then data for which the criterion would pick another number (or a lower ar_order)"),
 })
+
+needs.update({
+ "C06-k1": ("centre-DC helpers index through a module-level dict of rotation permutations keyed on the length only (odd N needs different rotations for the two directions)", "an odd length and both directions used on that length in one process"),
+ "C06-k2": ("sides setter writes the converted values into the existing buffer (self.__psd[:] = newpsd) for twosided <-> centerdc", "a second holder of the stored array: a get_converted_psd(<current sides>) result kept across a later sides assignment (or copy.copy of the object)"),
+ "C06-k3": ("Range.centerdc_gen with true division (half-bin offset for odd N)", "odd NFFT, sides centerdc, a check that ties values to frequencies('centerdc')"),
+ "C06-l1": ("twosided_2_centerdc returns one module-level work array per (length, dtype) on every call", "two centre-DC results of the same length alive at once (two objects, or one object plus any other centre-DC conversion of that length)"),
+ "C06-l2": ("twosided_2_onesided folds in the input dtype (no dtype=float)", "integer or float32 two-sided input whose folded sums leave the dtype's range (int8/uint8, huge Python ints, float32 beyond 24 bits)"),
+ "C06-l3": ("onesided_2_twosided takes abs() of its input", "a stored one-sided PSD with negative entries (cross-PSD)"),
+ "C07-k1": ("twosided_2_onesided returns a view and folds into the stored PSD when get_converted_psd('onesided') is asked of a twosided object", "real data, computed PSD, sides='twosided', get_converted_psd('onesided'), then psd"),
+ "C07-k2": ("Range.twosided via numpy.arange with a float step (NFFT+1 points for unlucky NFFT/sampling pairs)", "sides twosided and NFFT in 49, 98, 103, 107 (sampling 1, 2, 1024), 29, 31, 58 (100), 61, 77 (10)"),
+ "C07-k3": ("pma stores a copy self.M of its AR order at construction and uses it in __call__", "pma only: assign another ar_order after construction, read"),
+ "C07-l1": ("Range becomes a class-level default shared by all Spectrum objects", "two live estimators whose NFFT or sampling differ, continued use of the older one"),
+ "C07-l2": ("default NFFT follows a new data length by writing __NFFT directly (Range.N keeps the old value)", "NFFT equal to the data length, real data, then data of another length"),
+ "C07-l3": ("psd setter re-applies the user's sides, but scale() round-trips through the setter and converts twice", "non-default sides after a computation, another attribute assigned, a read, and a scaling estimator (scale_by_freq=True)"),
+})
 res = json.load(open('/verif/seeded/RESULTS.json'))
 for sid, (mech, need) in needs.items():
     d = '/verif/seeded/' + sid
